@@ -35,8 +35,17 @@ func TestMain(m *testing.M) {
 
 // Ext is the harness struct of the plan: an embedded dsn.Info plus string / int /
 // bool members, some with multiref aliases, some without.
+// extras has an unexported type name; embedded, its exported members are promoted like those
+// of dsn.Info (an application's own settings next to the library's).
+type extras struct {
+	Region  string `json:"region"`
+	Retries int    `json:"retries"`
+	Verbose bool   `json:"verbose"`
+}
+
 type Ext struct {
 	dsn.Info
+	extras
 	A     string `json:"a" multiref:"alpha,al"`
 	P     int    `json:"p" multiref:"pint"`
 	Flag  bool   `json:"flag" multiref:"f"`
@@ -367,13 +376,14 @@ func genInfo(t *rapid.T, text func(*rapid.T, string) string) dsn.Info {
 
 func genExt(t *rapid.T, text func(*rapid.T, string) string) Ext {
 	return Ext{
-		Info:  genInfo(t, text),
-		A:     text(t, "a"),
-		P:     intGen(t, "p"),
-		Flag:  rapid.Bool().Draw(t, "flag"),
-		Note:  text(t, "note"),
-		Count: intGen(t, "count"),
-		On:    rapid.Bool().Draw(t, "on"),
+		Info:   genInfo(t, text),
+		extras: extras{Region: text(t, "region"), Retries: intGen(t, "retries"), Verbose: rapid.Bool().Draw(t, "verbose")},
+		A:      text(t, "a"),
+		P:      intGen(t, "p"),
+		Flag:   rapid.Bool().Draw(t, "flag"),
+		Note:   text(t, "note"),
+		Count:  intGen(t, "count"),
+		On:     rapid.Bool().Draw(t, "on"),
 	}
 }
 
